@@ -19,6 +19,10 @@
 (*        <<4>>            unspecified by the property                     *)
 (*        <<5, e1, e2,..>> any of the listed alternatives                  *)
 (*        <<6, n, d>>      must equal n/d exactly (rank-type outputs)      *)
+(*        <<7, s, n1, d1, n2, d2, ...>>   must equal s*sqrt(prod ni/di)     *)
+(*        <<8, bn, bd, n1, d1, ...>>      must equal bn/bd + prod ni/di     *)
+(*    (7 and 8 keep large products out of TLC's 32-bit integers: the        *)
+(*     factors are handed over unmultiplied)                                *)
 (***************************************************************************)
 EXTENDS Integers, Sequences, FiniteSets
 
@@ -85,13 +89,15 @@ QN(n, d) == LET g == GCD(n, d)
             IN  IF g = 0 THEN <<0, 1>> ELSE <<sd * (n \div g), sd * (d \div g)>>
             \* note: \div on negative n after removing the common factor is exact
 QInt(a)      == <<a, 1>>
-QAdd(p, q)   == QN(p[1] * q[2] + q[1] * p[2], p[2] * q[2])
-QSub(p, q)   == QN(p[1] * q[2] - q[1] * p[2], p[2] * q[2])
+\* sums over the least common denominator, so that intermediates stay as small as the result
+QAdd(p, q)   == LET g == GCD(p[2], q[2])
+                IN  QN(p[1] * (q[2] \div g) + q[1] * (p[2] \div g), (p[2] \div g) * q[2])
+QSub(p, q)   == QAdd(p, <<-q[1], q[2]>>)
 QMul(p, q)   == LET a == QN(p[1], q[2]) b == QN(q[1], p[2])
                 IN  QN(a[1] * b[1], a[2] * b[2])
 QDiv(p, q)   == QMul(p, IF q[1] < 0 THEN <<-q[2], -q[1]>> ELSE <<q[2], q[1]>>)
 QNeg(p)      == <<-p[1], p[2]>>
-QEq(p, q)    == p[1] * q[2] = q[1] * p[2]
+QEq(p, q)    == QN(p[1], p[2]) = QN(q[1], q[2])      \* no cross-multiplication: cannot overflow
 QLt(p, q)    == p[1] * q[2] < q[1] * p[2]
 QLe(p, q)    == p[1] * q[2] <= q[1] * p[2]
 QZero(p)     == p[1] = 0
@@ -108,5 +114,13 @@ EInt(v)      == <<3, v>>
 EAny         == <<4>>
 EExact(q)    == <<6, q[1], q[2]>>
 EOpt(v)      == IF v = NULL THEN ENull ELSE EInt(v)
+RECURSIVE FlatQ(_)
+FlatQ(fs)    == IF fs = <<>> THEN <<>> ELSE <<Head(fs)[1], Head(fs)[2]>> \o FlatQ(Tail(fs))
+\* the rational denoted by an <<8, ...>> expectation (only where the product is known to fit)
+RECURSIVE ProdFrom(_, _)
+ProdFrom(e, i) == IF i > Len(e) THEN <<1, 1>> ELSE QMul(<<e[i], e[i + 1]>>, ProdFrom(e, i + 2))
+AffValue(e) == QAdd(<<e[2], e[3]>>, ProdFrom(e, 4))
+ESqProd(s, fs) == <<7, s>> \o FlatQ(fs)        \* fs: sequence of reduced rationals >= 0
+EAff(b, fs)    == <<8, b[1], b[2]>> \o FlatQ(fs)
 
 =============================================================================
